@@ -1,0 +1,35 @@
+//! Verification hooks - DO NOT USE!
+//!
+//! Requires the internal `__verif` feature. An external deterministic-simulation harness
+//! uses this to decide *when* the compile job of a policy completes, instead of leaving
+//! that to the wall-clock timing of a real OS thread.
+#![allow(missing_docs)]
+
+/// Drop-in replacement for the one use of `std::thread::spawn` in `state.rs`.
+pub mod thread {
+    use std::cell::RefCell;
+    use std::rc::Rc;
+
+    /// A job that would have run on its own thread.
+    pub type Job = Box<dyn FnOnce() + Send + 'static>;
+
+    thread_local! {
+        static SPAWNER: RefCell<Option<Rc<dyn Fn(Job)>>> = const { RefCell::new(None) };
+    }
+
+    /// Install (or remove) the job receiver for the calling thread.
+    pub fn set_spawner(s: Option<Rc<dyn Fn(Job)>>) {
+        SPAWNER.with(|c| *c.borrow_mut() = s);
+    }
+
+    /// Hands the job to the installed receiver; falls back to a real thread if none is set.
+    pub fn spawn<F: FnOnce() + Send + 'static>(f: F) {
+        let spawner = SPAWNER.with(|c| c.borrow().clone());
+        match spawner {
+            Some(s) => s(Box::new(f)),
+            None => {
+                std::thread::spawn(f);
+            }
+        }
+    }
+}
